@@ -16,6 +16,7 @@ type wrappedStringDecoder struct {
 	structName    string
 	fieldName     string
 	isPtrType     bool
+	isMapKey      bool // an object key: "null" is not a number (encoding/json parses the key text)
 }
 
 func newWrappedStringDecoder(typ *runtime.Type, dec Decoder, structName, fieldName string) *wrappedStringDecoder {
@@ -26,6 +27,15 @@ func newWrappedStringDecoder(typ *runtime.Type, dec Decoder, structName, fieldNa
 		structName:    structName,
 		fieldName:     fieldName,
 		isPtrType:     typ.Kind() == reflect.Ptr,
+	}
+}
+
+// nullKeyError: the key "null" of a map with a numeric key type
+func (d *wrappedStringDecoder) nullKeyError(payload []byte, offset int64) error {
+	return &errors.UnmarshalTypeError{
+		Value:  "number " + string(payload),
+		Type:   runtime.RType2Type(d.typ),
+		Offset: offset,
 	}
 }
 
@@ -49,6 +59,9 @@ func (d *wrappedStringDecoder) DecodeStream(s *Stream, depth int64, p unsafe.Poi
 		}
 		return nil
 	}
+	if d.isMapKey && len(bytes) > 0 && bytes[0] == 'n' {
+		return d.nullKeyError(bytes, s.totalOffset())
+	}
 	b := make([]byte, len(bytes)+1)
 	copy(b, bytes)
 	c, err := d.dec.Decode(&RuntimeContext{Buf: b}, 0, depth, p)
@@ -71,6 +84,9 @@ func (d *wrappedStringDecoder) Decode(ctx *RuntimeContext, cursor, depth int64, 
 			*(*unsafe.Pointer)(p) = nil
 		}
 		return c, nil
+	}
+	if d.isMapKey && len(bytes) > 0 && bytes[0] == 'n' {
+		return 0, d.nullKeyError(bytes, c)
 	}
 	bytes = append(bytes, nul)
 	oldBuf := ctx.Buf
